@@ -347,20 +347,21 @@ def project_raw(buf, schema, start=0, end=None, stats=None):
                 stats['trunc'] = stats.get('trunc', 0) + 1
             break
         ov = off + s1 + s2
-        if ov + ln > end:
-            out.append(leaf(t, end - ov, runs_of_bytes(buf[ov:end]), fits=False))
-            if stats is not None:
-                stats['overrun'] = stats.get('overrun', 0) + 1
-            break
+        fits = ov + ln <= end
+        ev = ov + ln if fits else end            # an overrunning element is shown with the bytes that are there
         d = tab.get(t)
         kind = d['kind'] if d else 'bytes'
         if kind == 'model':
-            out.append(node(t, project_raw(buf, d['sub'], ov, ov + ln, stats)))
+            out.append(node(t, project_raw(buf, d['sub'], ov, ev, stats), fits))
         elif kind == 'name':
-            out.append(node(t, project_raw(buf, [], ov, ov + ln, stats)))
+            out.append(node(t, project_raw(buf, [], ov, ev, stats), fits))
         else:
-            out.append(leaf(t, ln, runs_of_bytes(buf[ov:ov + ln])))
-        off = ov + ln
+            out.append(leaf(t, ev - ov, runs_of_bytes(buf[ov:ev]), fits))
+        if not fits:
+            if stats is not None:
+                stats['overrun'] = stats.get('overrun', 0) + 1
+            break
+        off = ev
     return out
 
 
@@ -421,9 +422,25 @@ def exc_class(e):
     return type(e).__name__
 
 
+def scratch(name):
+    """build/ path private to this process (two checks may run at the same time)"""
+    base, ext = os.path.splitext(name)
+    return os.path.join(tlc.BUILD, '%s.%d%s' % (base, os.getpid(), ext))
+
+
+def cleanup():
+    import glob
+    for fn in glob.glob(os.path.join(tlc.BUILD, '*.%d.*' % os.getpid())) + glob.glob(os.path.join(tlc.BUILD, '*.%d' % os.getpid())):
+        try:
+            os.remove(fn)
+        except OSError:
+            pass
+
+
 def write_cfg(name, constants=None, **kw):
-    p = os.path.join(tlc.BUILD, name)
-    tlc.write_cfg(p, constants=constants, **kw)
+    p = scratch(name)
+    tlc.write_cfg(p + '.tmp', constants=constants, **kw)
+    os.replace(p + '.tmp', p)
     return p
 
 
@@ -450,6 +467,20 @@ def tlc_eval(module, cfg, env, timeout=1800, heap='4g'):
     return r
 
 
+def check_witnesses(module, witnesses, constants, raw='', env=None, par=3):
+    """each witness W_x == ~(situation) must be VIOLATED (the situation is reachable); runs in parallel"""
+    def one(w):
+        cfg = write_cfg('%s_%s.cfg' % (module, w), constants=constants, invariants=[w], raw=raw)
+        e = dict(env or {})
+        e = {k: (scratch(v + '.' + w) if k.endswith('_TAB') else v) for k, v in e.items()}
+        r = tlc.run(module, cfg, workers=1, heavy=False, env=e, tag=w)
+        return w, r.violated
+    with ThreadPoolExecutor(par) as ex:
+        for w, viol in ex.map(one, witnesses):
+            if viol != w:
+                raise tlc.MachineryError('witness %s of %s is not reachable (vacuous invariant)' % (w, module))
+
+
 def judge(module, cfg, records, name, nproc=4, env=None, timeout=3000):
     """Batch judging: records (dicts with an 'id') are sharded into NDJSON files, one TLC process
     per shard evaluates the reference on each record and prints
@@ -463,7 +494,7 @@ def judge(module, cfg, records, name, nproc=4, env=None, timeout=3000):
     shards = [records[i::nproc] for i in range(nproc)]
     files = []
     for i, sh in enumerate(shards):
-        fn = os.path.join(tlc.BUILD, '%s-%d.ndjson' % (name, i))
+        fn = scratch('%s-%d.ndjson' % (name, i))
         with open(fn, 'w') as f:
             for r in sh:
                 f.write(json.dumps(r, separators=(',', ':')) + '\n')
